@@ -3,6 +3,7 @@ package main
 import (
 	"encoding/json"
 	"fmt"
+	"google.golang.org/protobuf/proto"
 
 	gonnx "github.com/advancedclimatesystems/gonnx"
 	"github.com/advancedclimatesystems/gonnx/onnx"
@@ -177,6 +178,9 @@ type recSplit struct {
 	Cfg        recCfg `json:"cfg"`
 	K          int    `json:"k"`
 	ViaModel   bool   `json:"via_model"`
+	// StateOnly (with ViaModel): the first piece is run by a node that skips Y (outputs ["", "Y_h"(, "Y_c")]) -
+	// only the final state is asked for, as a streaming caller would
+	StateOnly bool `json:"state_only,omitempty"`
 }
 
 func sliceSeq(X *ref.T, from, to int) *ref.T {
@@ -233,6 +237,20 @@ func (r *recSplit) run() *hx.Violation {
 	}
 	if len(o2) != cf.nOut() || o2[0] == nil || o2[1] == nil {
 		return mk("nil-output", "second piece returned nil outputs")
+	}
+	if r.StateOnly {
+		// only the second piece's Y is available: it must equal the tail of the whole Y
+		per := ref.NElem(whole[0].Shape[1:])
+		tail := &ref.T{DT: whole[0].DT, Shape: append([]int{cf.S - r.K}, whole[0].Shape[1:]...), V: whole[0].V[r.K*per:]}
+		if k, d := hx.CompareT(o2[0], tail, cf.cmp()); k != "" {
+			return mk(k, fmt.Sprintf("Y of the second piece after split at %d (first piece asked for the final state only) differs from the whole sequence: %s", r.K, d))
+		}
+		for i := 1; i < cf.nOut(); i++ {
+			if k, d := hx.CompareT(o2[i], whole[i], cf.cmp()); k != "" {
+				return mk(k, fmt.Sprintf("final state %d after split at %d (first piece asked for the final state only) differs from the whole sequence: %s", i, r.K, d))
+			}
+		}
+		return hx.OK("split-consistent")
 	}
 	// concat(Y1, Y2) vs whole Y; final states vs whole
 	if o1[0] == nil {
@@ -302,17 +320,30 @@ func (r *recSplit) runViaModel(X1, X2, W, R, B, h0, c0, P *ref.T, attrs []hx.Att
 	if err != nil {
 		return nil, nil, mk("refused", "model did not load: "+err.Error())
 	}
+	m1 := m
+	if r.StateOnly {
+		g1 := proto.Clone(g).(*onnx.GraphProto)
+		g1.Node[0].Output[0] = ""
+		g1.Output = g1.Output[1:]
+		if m1, err = gonnx.NewModelFromBytes(hx.Marshal(hx.Model(g1, 13))); err != nil {
+			return nil, nil, mk("refused", "model did not load: "+err.Error())
+		}
+	}
 	in1 := gonnx.Tensors{"X": hx.ToG(X1), "h0": hx.ToG(h0)}
 	if cf.Op == "LSTM" {
 		in1["c0"] = hx.ToG(c0)
 	}
-	r1, err := m.Run(in1)
+	r1, err := m1.Run(in1)
 	if err != nil {
 		return nil, nil, nil // refused: acceptable for D_refuse configurations; D_compute ones are judged by the unsplit case
 	}
 	read := func(res gonnx.Tensors) ([]*ref.T, *hx.Violation) {
 		var o []*ref.T
-		for _, n := range outs {
+		for i, n := range outs {
+			if i == 0 && r.StateOnly && len(res) == len(outs)-1 {
+				o = append(o, nil) // the first piece did not ask for Y
+				continue
+			}
 			t, ok := res[n]
 			if !ok || t == nil {
 				return nil, mk("nil-output", "output "+n+" missing or nil")
@@ -416,6 +447,7 @@ func checkC06(c *hx.Checker) {
 							splits = append(splits, recSplit{ReplayKind: "rec-split", Cfg: v, K: k})
 							if (Bn+I+H)%2 == 0 || thorough {
 								splits = append(splits, recSplit{ReplayKind: "rec-split", Cfg: v, K: k, ViaModel: true})
+								splits = append(splits, recSplit{ReplayKind: "rec-split", Cfg: v, K: k, ViaModel: true, StateOnly: true})
 							}
 						}
 					}
@@ -557,7 +589,7 @@ func checkC06(c *hx.Checker) {
 		if sp.ViaModel {
 			tags = append(tags, "split-via-model")
 		}
-		id := fmt.Sprintf("split@%d/model=%v/%s", sp.K, sp.ViaModel, sp.Cfg.id())
+		id := fmt.Sprintf("split@%d/model=%v/state-only=%v/%s", sp.K, sp.ViaModel, sp.StateOnly, sp.Cfg.id())
 		c.Case(hx.CaseInfo{ID: id, Tags: tags, NonTrivial: true}, func() *hx.Violation { return sp.run() })
 	})
 }
